@@ -199,3 +199,43 @@ def sampler_scenarios(seed, per_group, faults="none"):
                     pass
             out.append(sc)
     return out
+
+
+def schema_scenarios(seed, n):
+    rnd = random.Random(seed)
+    presets = NUTS_PRESETS + MCLMC_PRESETS
+    out = []
+    for i in range(n):
+        preset = presets[i % 6]
+        dim = rnd.choice([1, 3, 3, 5]) if i % 13 else 0
+        if "mclmc" in preset and dim < 2:
+            dim = 2
+        dens = rnd.choice(DENS)
+        if dens["kind"] in ("Banana", "Funnel") and dim < 2:
+            dens = DENS[0]
+        st = {"num_tune": rnd.choice([0, 3, 12, 40]), "num_draws": rnd.choice([3, 10]),
+              "store_gradient": rnd.random() < 0.5, "store_unconstrained": rnd.random() < 0.5,
+              "store_transformed": rnd.random() < 0.5, "store_divergences": rnd.random() < 0.5,
+              "seed": rnd.randrange(1 << 30)}
+        if "nuts" in preset:
+            st["maxdepth"] = rnd.choice([2, 4, 6])
+            st["max_energy_error"] = rnd.choice([1000.0, 0.3])
+        else:
+            st["max_energy_error"] = rnd.choice([1000.0, 0.05])
+            st["dynamic_step_size"] = rnd.random() < 0.5
+            st["momentum_decoherence_length"] = 1.0
+        if "flow" not in preset:
+            mm = {"store_mass_matrix": rnd.random() < 0.5}
+            if "diag" in preset:
+                mm["use_grad_based_estimate"] = rnd.random() < 0.7
+            st["adapt_options"] = {"mass_matrix_options": mm, "mass_matrix_update_freq": rnd.choice([1, 4]),
+                                   "early_mass_matrix_switch_freq": rnd.choice([3, 10])}
+        if preset == "flow_mclmc":
+            # keep the step size fixed: adapting it on MCLMC acceptance statistics can make draws of ~1e6 steps
+            st["adapt_options"] = {"step_size_settings": {"adapt_options": {"method": {"Fixed": 0.3}}}}
+        sc = {"preset": preset, "dim": dim, "density": dens, "settings": st, "seed": rnd.randrange(1 << 30),
+              "chain": rnd.randrange(5), "init": [rnd.uniform(-1, 1) for _ in range(dim)]}
+        if rnd.random() < 0.3:
+            sc["faults"] = [[rnd.randrange(8, 200), rnd.choice(NONFATAL)] for _ in range(3)]
+        out.append(sc)
+    return out
